@@ -516,7 +516,21 @@ pub fn check_oneshot(c: &OneShot, st: &mut Stats) -> CheckResult {
             let shards: Vec<Vec<u8>> = lens.iter().enumerate().map(|(i, &l)| shard(l, hseed ^ i as u64)).collect();
             let truth = truth_oneshot_encode(*k, *r, &lens);
             let what = format!("encode({k}, {r}, shards of lengths {lens:?})");
-            let res = no_panic(|| reed_solomon_simd::encode(*k, *r, &shards)).map_err(|p| format!("{what} {p}"))?;
+            let res = no_panic(|| match hseed % 3 {
+                0 => reed_solomon_simd::encode(*k, *r, &shards),
+                1 => {
+                    let padded: Vec<(bool, &Vec<u8>)> = shards.iter().flat_map(|s| [(true, s), (false, s)]).collect();
+                    reed_solomon_simd::encode(*k, *r, padded.iter().filter(|x| x.0).map(|x| x.1))
+                }
+                _ => {
+                    let mut i = 0;
+                    reed_solomon_simd::encode(*k, *r, std::iter::from_fn(|| {
+                        i += 1;
+                        shards.get(i - 1)
+                    }))
+                }
+            })
+            .map_err(|p| format!("{what} {p}"))?;
             judge(&what, &res, &truth)?;
             if let Ok(v) = &res {
                 ensure!(v.len() == *r && v.iter().all(|s| s.len() == lens[0]), "encode returned {} shards for r={r}", v.len());
